@@ -229,6 +229,20 @@ impl World {
         }
     }
 
+    /// the code under test is about to touch a file: a scheduling point of the disk seam
+    pub fn io_point(&self, kind: &'static str) {
+        // never while this very thread is inside the harness state (no re-entrancy)
+        match self.st.try_lock() {
+            Ok(mut st) => {
+                st.reach("file_io_scheduling_point");
+                st.log("file_io", usize::MAX, hash_str(kind));
+            }
+            Err(_) => return,
+        }
+        self.flush();
+        self.switch();
+    }
+
     /// plain scheduling point (not a yield request, which PCT would read as "demote me")
     pub fn switch(&self) {
         shuttle::thread::sleep(std::time::Duration::from_millis(0));
